@@ -1,10 +1,30 @@
 use crate::common::serverdir::ServerDir;
 use crate::server::Senders;
-use crate::server::autoalloc::try_submit_allocation;
+use crate::server::autoalloc::{QueueParameters, try_submit_allocation};
 use crate::transfer::messages::{
     AutoAllocListQueuesResponse, AutoAllocRequest, AutoAllocResponse, QueueCreateResponse,
     ToClientMessage,
 };
+
+/// Checks queue parameters received from a client.
+/// The CLI checks some of these conditions on its own, but the server cannot rely on that.
+fn validate_queue_parameters(params: &QueueParameters) -> anyhow::Result<()> {
+    if params
+        .backlog
+        .checked_mul(params.max_workers_per_alloc)
+        .is_none()
+    {
+        return Err(anyhow::anyhow!(
+            "Backlog multiplied by the maximum number of workers per allocation is too large"
+        ));
+    }
+    if !(0.0..=1.0).contains(&params.min_utilization) {
+        return Err(anyhow::anyhow!(
+            "Minimal utilization has to be in the interval [0.0, 1.0]."
+        ));
+    }
+    Ok(())
+}
 
 pub async fn handle_autoalloc_message(
     server_dir: &ServerDir,
@@ -21,6 +41,9 @@ pub async fn handle_autoalloc_message(
             ))
         }
         AutoAllocRequest::DryRun { parameters } => {
+            if let Err(e) = validate_queue_parameters(&parameters) {
+                return ToClientMessage::Error(e.to_string());
+            }
             if let Err(e) = try_submit_allocation(parameters).await {
                 ToClientMessage::Error(e.to_string())
             } else {
@@ -31,6 +54,9 @@ pub async fn handle_autoalloc_message(
             parameters,
             dry_run,
         } => {
+            if let Err(e) = validate_queue_parameters(&parameters) {
+                return ToClientMessage::Error(e.to_string());
+            }
             if dry_run && let Err(e) = try_submit_allocation(parameters.clone()).await {
                 return ToClientMessage::AutoAllocResponse(AutoAllocResponse::QueueCreateResponse(
                     QueueCreateResponse::DryRunFailed(e.to_string()),
